@@ -4,7 +4,7 @@ From Coq Require Import ZArith List Bool Lia.
 From PB Require Import lib.SumZ lib.PySlice lib.Arr C11.DtD C11.Table gen.GenBands C11.Banded C11.History
                        C11.Uses C11.UsesProofs C11.PSplineSys C11.PSplineSysProofs
                        C11.Effects C11.EffectsProofs gen.GenBandEffects
-                       C11.Sys2D C11.Sys2DProofs gen.GenBandEffects2D.
+                       C11.Sys2D C11.Sys2DProofs gen.GenBandEffects2D C11.Sites gen.GenPenaltySites.
 Import ListNotations.
 Open Scope Z_scope.
 
@@ -520,3 +520,23 @@ Example C11_history2d_nonvacuous :
   | _, _ => False
   end.
 Proof. vm_compute. repeat split. discriminate. Qed.
+
+(* ---- method-internal re-use of a system (C11/Sites.v): every call of reset_diagonals /
+   reset_penalty_diagonals / reset_penalty / update_lam, every constructor and _setup_whittaker /
+   _setup_spline / whittaker_smooth / pspline_smooth call, and every assignment to <x>.penalty OUTSIDE the
+   system classes, generated from the current source with the way the difference order reaches the system
+   (gen/GenPenaltySites.v).  No site omits diff_order while its function has one, none re-binds a penalty
+   to anything but a multiple of itself. ---- *)
+Theorem C11_penalty_sites_checked : sites_ok penalty_sites = true.
+Proof. vm_compute. reflexivity. Qed.
+Print Assumptions C11_penalty_sites_checked.
+
+Theorem C11_penalty_sites_sound : forall l, sites_ok l = true ->
+  forall w x c, In (w, x, c) l -> c <> OmitsOrder /\ c <> OtherSite.
+Proof. exact sites_ok_sound. Qed.
+Print Assumptions C11_penalty_sites_sound.
+
+(* what a RescaleOnly site does to lam0 * P: the same bands of the same order, scaled *)
+Theorem C11_rescale_keeps_order : forall (k lam0 : Z) (P : arr), aeq (scale k (scale lam0 P)) (scale (k * lam0) P).
+Proof. exact rescale_same_order. Qed.
+Print Assumptions C11_rescale_keeps_order.
